@@ -144,6 +144,18 @@ class TTuple(Ty):
         return "(%s)" % ", ".join(map(repr, self.items))
 
 
+class TStruct(TTuple):
+    """(genukk) a struct of the spec (`structs`): a tuple in field order that remembers the field names"""
+
+    def __init__(self, name, fields, items):
+        self.name, self.fields, self.items = name, fields, items
+
+    def proj(self, field):
+        k = self.fields.index(field)
+        n = len(self.fields)
+        return "".join([".2"] * k) + (".1" if k < n - 1 else "")
+
+
 class TAbs(Ty):
     """a generic type parameter of the Rust function (`T`): a Lean type variable"""
 
@@ -599,6 +611,17 @@ class Parser:
         self.expect("(")
         a = []
         while not self.at(")"):
+            if self.at("|") and self.peek(1).kind == "id" and self.at("|", 2) and self.peek(3).kind == "id" \
+                    and self.peek(3).text == self.peek(1).text and self.at(".", 4) and self.peek(5).kind == "id" \
+                    and (self.at(")", 6) or self.at(",", 6)):
+                # (genukk) the field-projection closure `|s| s.dist`
+                p0 = self.peek()
+                for _ in range(5):
+                    self.next()
+                a.append(N("projclosure", p0.pos, field=self.next().text))
+                if self.at(","):
+                    self.next()
+                continue
             if self.at("|") or self.at("||") or self.at("move"):
                 raise Unsupported("closure argument", self.peek().pos)
             a.append(self.expr())
@@ -708,6 +731,13 @@ class Parser:
             path = [x.text]
             while self.at("::"):
                 self.next()
+                if self.at("<") and path == ["word_size"] and self.peek(1).kind == "id" and self.at(">", 2) and self.at("(", 3):
+                    # (genukk) `word_size::<T>()`: the bit width of the word type
+                    self.next()
+                    targ = self.ident().text
+                    self.next()
+                    self.args()
+                    return N("wordsize", x.pos, targ=targ)
                 if self.at("<"):
                     raise Unsupported("turbofish / generic arguments in a path", self.peek().pos)
                 path.append(self.ident().text)
@@ -941,7 +971,7 @@ class FnTranslator:
         if nm in self.word_types and not t.args:
             return TWord(nm, self.word_types[nm])
         if nm in self.structs and not t.args:
-            return TTuple([self.ty_of_text(ft) for _, ft in self.structs[nm]])
+            return TStruct(nm, [f for f, _ in self.structs[nm]], [self.ty_of_text(ft) for _, ft in self.structs[nm]])
         if nm in self.generics and not t.args:
             return TAbs(nm, self.generics[nm])
         if nm in self.aliases and not t.args:
@@ -981,7 +1011,7 @@ class FnTranslator:
         """Lean name for the Rust variable `name`: its own name, primed while another live variable (e.g. the field
         `self.mask` next to a local `mask`) already uses it"""
         lean = lean_name(name)
-        live = set(v.lean for sc in self.scopes for k, v in sc.items() if k != name or avoid_same)
+        live = set(v.lean for sc in self.scopes for k, v in sc.items() if k != name or avoid_same) | set(self.width_params())
         while lean in live:
             lean += "'"
         return lean
@@ -1021,7 +1051,10 @@ class FnTranslator:
                         d.add(nm)
             if n.tail is not None:
                 self._assigned(n.tail, d, out)
+        elif k == "let":
+            self._expr_calls_assigned(n.init, decl, out)
         elif k == "assign":
+            self._expr_calls_assigned(n.rhs, decl, out)
             r = self._lhs_root(n.lhs)
             if n.lhs.kind == "un" and n.lhs.op == "*":
                 # `*r = e` where r is an iter_mut loop variable: the write goes to the sequence, handled by the loop
@@ -1037,12 +1070,7 @@ class FnTranslator:
                 ckey = "::".join(e.path)
             if ckey is not None:
                 # (genukk) a call that receives `&mut S` arguments assigns the fields of those structs
-                for a, at in zip(e.args, self.calls[ckey]["args"]):
-                    sname = self.struct_of(at)
-                    if sname is not None and at.replace(" ", "").startswith("&mut"):
-                        for v in self.struct_fields_of(a, sname, e):
-                            if v.rust not in decl and v.rust not in out:
-                                out.append(v.rust)
+                self._call_assigned(ckey, e.args, decl, out)
             elif e.kind == "mcall" and e.name in SEQ_MUTATORS:
                 r = self._lhs_root(e.recv)
                 if r not in decl and r not in out:
@@ -1068,6 +1096,12 @@ class FnTranslator:
             if r not in decl and r not in out:
                 out.append(r)
             self._assigned(n.body, set(decl) | set(pat_names(n.pat)), out)
+        elif k == "for" and zip_mut_parts(n.iter) is not None:
+            # (genukk) `for (x, y) in xs.iter_mut().zip(ys)`: the sequence `xs` is rebuilt
+            r = self._lhs_root(zip_mut_parts(n.iter)[0])
+            if r not in decl and r not in out:
+                out.append(r)
+            self._assigned(n.body, set(decl) | set(pat_names(n.pat)), out)
         elif k == "for":
             d = set(decl) | set(pat_names(n.pat))
             inner = []
@@ -1081,6 +1115,26 @@ class FnTranslator:
                 if r not in decl and r not in out:
                     out.append(r)
         # expressions do not assign (no nested blocks except `if` expressions, handled above)
+
+    def _call_assigned(self, ckey, args, decl, out):
+        """(genukk) what a call of the translated function `ckey` assigns: `self_outs`, and the `&mut S` arguments"""
+        f = self.calls[ckey]
+        names = ["self." + a for a in f.get("self_outs", [])]
+        for a, at in zip(args, f["args"]):
+            sname = self.struct_of(at)
+            if sname is not None and at.replace(" ", "").startswith("&mut"):
+                names += self.struct_arg_names(a, sname)
+        for nm in names:
+            if nm not in decl and nm.split(".")[0] not in decl and nm not in out:
+                out.append(nm)
+
+    def _expr_calls_assigned(self, e, decl, out):
+        """(genukk) calls with `&mut` effects inside an expression (`carry = advance_block(state, ..)`)"""
+        for x in all_nodes(e):
+            if x.kind == "mcall" and method_key(x) in self.calls:
+                self._call_assigned(method_key(x), x.args, decl, out)
+            elif x.kind == "call" and "::".join(x.path) in self.calls:
+                self._call_assigned("::".join(x.path), x.args, decl, out)
 
     def reads(self, node):
         """rust names read anywhere in `node`"""
@@ -1114,9 +1168,10 @@ class FnTranslator:
                     sname = self.struct_of(at)
                     if sname is not None:
                         # (genukk) a struct argument reads the variables that hold its fields
-                        for v in self.struct_fields_of(a, sname, n):
-                            if v.rust not in out:
-                                out.append(v.rust)
+                        for nm in self.struct_arg_names(a, sname):
+                            if nm not in out:
+                                out.append(nm)
+                        self._reads(a, out)
                     else:
                         self._reads(a, out)
             elif n.kind == "match":
@@ -1176,6 +1231,11 @@ class FnTranslator:
             if self_path(e) is not None:
                 v = self.lookup(self_path(e), e)
                 return v.lean, v.ty
+            if e.e.kind in ("index", "var", "paren"):
+                # (genukk) `v[i].dist`, `peq[i].peq`: projection of a struct value
+                b, bt = self.expr(e.e, code)
+                if isinstance(bt, TStruct) and e.name in bt.fields:
+                    return "%s%s" % (atom(b), bt.proj(e.name)), bt.items[bt.fields.index(e.name)]
             self.err("field access `.%s` on something other than `self`" % e.name, e)
         if k == "index":
             if e.idx.kind == "range":
@@ -1229,6 +1289,12 @@ class FnTranslator:
                     code.bind(r, ("call", "Rs.neg %s %s" % (t.w, atom(s))))
                     return r, t
                 self.err("unary `-` on %r (only signed bit patterns)" % (t,), e)
+        if k == "wordsize":
+            if e.targ in self.word_types:
+                return self.word_types[e.targ], TInt("usize")
+            if e.targ in WIDTH:
+                return str(WIDTH[e.targ]), TInt("usize")
+            self.err("`word_size::<%s>()` of a type the spec does not know" % e.targ, e)
         if k == "bin":
             return self.binary(e, code, expected)
         if k == "mcall":
@@ -1421,6 +1487,36 @@ class FnTranslator:
             t = self.tmp()
             code.bind(t, ("call", "Rs.cvt %s %s" % (target.w, atom(s_))))
             return t, target
+        if nm == "unwrap_or" and len(e.args) == 1 and e.recv.kind == "mcall" and e.recv.name == "map" \
+                and len(e.recv.args) == 1 and e.recv.args[0].kind == "projclosure" \
+                and e.recv.recv.kind == "mcall" and e.recv.recv.name == "last" and not e.recv.recv.args:
+            # (genukk) `v.last().map(|s| s.f).unwrap_or(d)` on a vector of structs
+            r, t = self.expr(e.recv.recv.recv, code)
+            fld = e.recv.args[0].field
+            if not (isinstance(t, TSeq) and isinstance(t.elem, TStruct) and fld in t.elem.fields):
+                self.err("`.last().map(|s| s.%s)` on %r" % (fld, t), e)
+            ft = t.elem.items[t.elem.fields.index(fld)]
+            d, dt = self.expr(e.args[0], code, ft)
+            if dt != ft:
+                self.err("`.unwrap_or(%r)` on an option of %r" % (dt, ft), e)
+            return "((%s.getLast?).map (fun s => s%s)).getD %s" % (atom(r), t.elem.proj(fld), atom(d)), ft
+        if nm == "map" and len(e.args) == 1 and e.args[0].kind == "projclosure" and e.recv.kind == "mcall" \
+                and e.recv.name == "get" and len(e.recv.args) == 1:
+            # (genukk) `v.get(i).map(|s| s.f)` on a vector of structs
+            r, t = self.expr(e.recv.recv, code)
+            fld = e.args[0].field
+            if not (isinstance(t, TSeq) and isinstance(t.elem, TStruct) and fld in t.elem.fields):
+                self.err("`.get(i).map(|s| s.%s)` on %r" % (fld, t), e)
+            i_, it_ = self.expr(e.recv.args[0], code, TInt("usize"))
+            if it_ != TInt("usize"):
+                self.err("`.get(%r)`" % (it_,), e)
+            return "(%s[%s]?).map (fun s => s%s)" % (atom(r), i_, t.elem.proj(fld)), TOption(t.elem.items[t.elem.fields.index(fld)])
+        if nm == "saturating_add" and len(e.args) == 1:
+            l, lt = self.expr(e.recv, code, expected)
+            r, rt = self.expr(e.args[0], code, lt)
+            if lt != rt or not isinstance(lt, TInt) or lt.signed:
+                self.err("`saturating_add` on %r and %r" % (lt, rt), e)
+            return "Rs.saturatingAdd %s %s %s" % (lt.w, atom(l), atom(r)), lt
         if nm == "len" and not e.args:
             r, t = self.expr(e.recv, code)
             if not isinstance(t, TSeq):
@@ -1532,6 +1628,9 @@ class FnTranslator:
             if not isinstance(expected, TSeq):
                 self.err("`Vec::new()` without a declared element type", e)
             return "[]", expected
+        if len(e.path) == 1 and e.path[0] in self.calls and \
+                (any(self.struct_of(a) is not None for a in self.calls[e.path[0]]["args"]) or self.calls[e.path[0]].get("self_outs")):
+            return self.struct_call(e.path[0], self.calls[e.path[0]], e.args, code, e)       # (genukk)
         if len(e.path) == 1 and e.path[0] in self.calls:
             f = self.calls[e.path[0]]
             if len(f["args"]) != len(e.args):
@@ -1571,22 +1670,80 @@ class FnTranslator:
             self.err("argument of struct type `%s` is not a parameter or a `self` field whose fields the spec lists" % sname, node)
         return [self.lookup("%s.%s" % (root, f), node) for f, _ in self.structs[sname]]
 
+    def struct_arg_names(self, arg, sname):
+        """(genukk) rust names of the variables a `&mut S` argument modifies (no look-up: used by the assignment analysis)"""
+        while arg.kind == "paren" or (arg.kind == "un" and arg.op in ("&", "&mut")):
+            arg = arg.e
+        if arg.kind == "index":
+            return [self._lhs_root(arg.base)]
+        if arg.kind == "var" and arg.name not in STRUCT_ROOTS:
+            return [arg.name]
+        root = arg.name if arg.kind == "var" else self_path(arg)
+        if root is None:
+            return []
+        if any(root in sc for sc in self.scopes):
+            return [root]           # a variable that holds the whole struct value
+        return ["%s.%s" % (root, f) for f, _ in self.structs[sname]]
+
+    def struct_arg(self, arg, sname, mutable, code, node):
+        """(genukk) pass the struct value `arg` field by field.  Returns (lean texts of the fields, lean names that receive the
+        new field values after the call [if `mutable`], function(code) that stores them back).  `arg` is a parameter / `self`
+        field whose fields are variables, an element `v[i]` of a vector of structs, or a local variable of the struct type."""
+        while arg.kind == "paren" or (arg.kind == "un" and arg.op in ("&", "&mut")):
+            arg = arg.e
+        st = self.ty_of_text(sname)
+        n = len(st.fields)
+        if arg.kind == "index" and arg.base.kind in ("var", "field") and arg.idx.kind != "range":
+            v = self.lookup(self._lhs_root(arg.base), node)
+            if not (isinstance(v.ty, TSeq) and v.ty.elem == st):
+                self.err("`%s[..]` as an argument of struct type `%s`: it has type %r" % (v.rust, sname, v.ty), node)
+            i, it = self.expr(arg.idx, code, TInt("usize"))
+            if it != TInt("usize"):
+                self.err("index of type %r" % (it,), arg.idx)
+            if not re.fullmatch(r"[\w.']+", i):
+                ti = self.tmp()
+                code.let(ti, i)
+                i = ti
+            el = self.tmp()
+            code.bind(el, ("call", "Rs.idx %s %s" % (atom(v.lean), atom(i))))
+            ins = [self.tmp() for _ in range(n)]
+            code.let(tuple_pat(ins), el)
+            if not mutable:
+                return ins, [], None
+            outs = [self.tmp() for _ in range(n)]
+            return ins, outs, (lambda c: c.bind(v.lean, ("call", "Rs.setIdx %s %s %s" % (atom(v.lean), atom(i), tuple_val(outs)))))
+        if arg.kind == "var" and any(arg.name in sc for sc in self.scopes):
+            v = self.lookup(arg.name, node)
+            if v.ty != st:
+                self.err("`%s` as an argument of struct type `%s`: it has type %r" % (v.rust, sname, v.ty), node)
+            ins = [self.tmp() for _ in range(n)]
+            code.let(tuple_pat(ins), v.lean)
+            if not mutable:
+                return ins, [], None
+            outs = [self.tmp() for _ in range(n)]
+            return ins, outs, (lambda c: c.let(v.lean, tuple_val(outs)))
+        vs = self.struct_fields_of(arg, sname, node)
+        return [v.lean for v in vs], ([v.lean for v in vs] if mutable else []), None
+
     def struct_call(self, key, f, args, code, node, as_stmt=False):
         """(genukk) call of another translated function that takes struct arguments: a `&mut S` argument passes the fields of
-        the struct and gets all of them back (in field order, before the declared return value); `&S` passes the fields"""
+        the struct and gets all of them back (in field order, before the declared return value); `&S` passes the fields.
+        `self_outs`: `self` fields the callee (a `&mut self` method) assigns — it returns them first."""
         if len(f["args"]) != len(args):
             self.err("`%s` called with %d arguments, the spec says %d" % (key, len(args), len(f["args"])), node)
         parts = list(f.get("extra", []))
         parts += [self.lookup(a, node).lean for a in f.get("recv_args", [])]
         parts += [self.lookup("self." + a, node).lean for a in f.get("self_args", [])]
-        outs = []
+        outs = [self.lookup("self." + a, node).lean for a in f.get("self_outs", [])]
+        posts = []
         for a, at in zip(args, f["args"]):
             sname = self.struct_of(at)
             if sname is not None:
-                vs = self.struct_fields_of(a, sname, node)
-                parts += [v.lean for v in vs]
-                if at.replace(" ", "").startswith("&mut"):
-                    outs += vs
+                ins, o, post = self.struct_arg(a, sname, at.replace(" ", "").startswith("&mut"), code, node)
+                parts += ins
+                outs += o
+                if post is not None:
+                    posts.append(post)
                 continue
             want = self.ty_of_text(at)
             s_, t_ = self.expr(a, code, want)
@@ -1598,10 +1755,14 @@ class FnTranslator:
         if ret is None:
             if not as_stmt:
                 self.err("`%s` returns no value" % key, node)
-            code.bind(tuple_pat([v.lean for v in outs]) if outs else "_", ("call", call))
+            code.bind(tuple_pat(outs) if outs else "_", ("call", call))
+            for post in posts:
+                post(code)
             return None, TUnit()
-        t = self.tmp()
-        code.bind(tuple_pat([v.lean for v in outs] + [t]), ("call", call))
+        t = self.tmp() if not as_stmt else "_"
+        code.bind(tuple_pat(outs + [t]), ("call", call))
+        for post in posts:
+            post(code)
         return t, ret
 
     def macro(self, e, code, expected):
@@ -1662,6 +1823,8 @@ class FnTranslator:
             return self.if_stmt(s.e, code)
         if k in LOOP_KINDS and self.loop_is_x(s):
             return self.loop_x(s, code, None, None)
+        if k == "for" and zip_mut_parts(s.iter) is not None:
+            return self.for_zip_mut(s, code)
         if k == "for" and zip_parts(s.iter) is not None:
             return self.for_zip(s, code)
         if k == "while":
@@ -1902,10 +2065,10 @@ class FnTranslator:
         self.err("method `.%s(…)` as a statement is outside the translated subset" % nm, e)
 
     def expr_stmt(self, e, code):
-        if e.kind == "mcall" and method_key(e) in self.calls and not self.calls[method_key(e)].get("ret"):
+        if e.kind == "mcall" and method_key(e) in self.calls:
             self.struct_call(method_key(e), self.calls[method_key(e)], e.args, code, e, as_stmt=True)     # (genukk)
             return
-        if e.kind == "call" and "::".join(e.path) in self.calls and not self.calls["::".join(e.path)].get("ret"):
+        if e.kind == "call" and "::".join(e.path) in self.calls:
             self.struct_call("::".join(e.path), self.calls["::".join(e.path)], e.args, code, e, as_stmt=True)
             return
         if e.kind == "mcall" and (e.name in ("clear", "extend", "resize", "truncate")
@@ -2260,6 +2423,53 @@ class FnTranslator:
                   ("call", "(List.zip %s %s).foldlM %s %s" % (atom(l), atom(r), atom(name + self.abs_args() + "".join(" " + v.lean for v in caps)),
                                                             tuple_val([v.lean for v in state]))))
 
+    def for_zip_mut(self, s, code):
+        """(genukk) `for (x, y) in xs.iter_mut().zip(ys)`: `List.foldlM` over `List.zip xs ys` of a named body function whose
+        state also rebuilds the prefix of `xs` element by element; the elements of `xs` beyond `ys.len()` stay as they are"""
+        self.n_for += 1
+        name = "%s_for%d" % (self.lean_fn, self.n_for)
+        xe, ye = zip_mut_parts(s.iter)
+        seq_var = self.lookup(self._lhs_root(xe), s)
+        if xe.kind not in ("var", "field") or not isinstance(seq_var.ty, TSeq):
+            self.err("`iter_mut().zip(..)` over something other than a vector variable", s)
+        ys, yt = self.expr(ye, code)
+        if not isinstance(yt, TSeq):
+            self.err("`.zip` with %r" % (yt,), s)
+        if s.pat.kind != "ptuple" or len(s.pat.items) != 2 or any(p.kind != "pid" for p in s.pat.items):
+            self.err("pattern of a `.zip()` loop must be `(a, b)`", s.pat)
+        loopvars = [(s.pat.items[0].name, seq_var.ty.elem), (s.pat.items[1].name, yt.elem)]
+        assigned = [a for a in self.assigned(N("for", s.pos, pat=s.pat, iter=s.iter, body=s.body)) if a != seq_var.rust]
+        if seq_var.rust in self.reads(s.body):
+            self.err("the body of an `iter_mut()` loop reads the sequence itself", s)
+        state = self.outer_vars(assigned, s)
+        caps = self.captured(s.body, [v.rust for v in state], [lv[0] for lv in loopvars])
+        saved_scopes, saved_tail = self.scopes, self.tail_expected
+        self.tail_expected = None
+        self.scopes = [dict((v.rust, Var(v.rust, v.lean, v.ty)) for v in caps + state)]
+        lvs = [self.declare(nm, t, s, mutable=(k == 0), nested_ok=True) for k, (nm, t) in enumerate(loopvars)]
+        acc = self.fresh_lean(seq_var.lean + "'")
+        self.loop_depth += 1
+        try:
+            body = Code()
+            self.block(self.unit_block(s.body), body, False)
+            body.final = ("pure", tuple_val([v.lean for v in state] + ["%s ++ [%s]" % (acc, self.lookup(loopvars[0][0], s).lean)]))
+        finally:
+            self.scopes, self.tail_expected = saved_scopes, saved_tail
+            self.loop_depth -= 1
+        st_ty = tuple_ty([v.ty for v in state] + [seq_var.ty])
+        el_ty = tuple_ty([v.ty for v in lvs])
+        lines = ["/-- body of `for %s` (line %d) -/" % (self.src_text(s, None)[4:].strip(), self.src.line_of(s.pos)),
+                 "%s : %s → %s → Res %s" % (self.helper_header(name, caps), paren_ty(st_ty), paren_ty(el_ty), paren_ty(st_ty)),
+                 "  | %s, %s => do" % (tuple_pat([v.lean for v in state] + [acc]), tuple_pat([v.lean for v in lvs]))]
+        emit_code(body, 4, lines)
+        self.helpers.append("\n".join(lines))
+        t = self.tmp()
+        code.bind(tuple_pat([v.lean for v in state] + [t]),
+                  ("call", "(List.zip %s %s).foldlM %s %s" % (atom(seq_var.lean), atom(ys),
+                                                            atom(name + self.abs_args() + "".join(" " + v.lean for v in caps)),
+                                                            tuple_val([v.lean for v in state] + ["[]"]))))
+        code.let(seq_var.lean, "%s ++ %s.drop %s.length" % (t, atom(seq_var.lean), atom(ys)))
+
     # ================================================================ control flow with exits (genpm)
     # `loop`, `break`, `return` inside loops, `match` on `Option`, `for pat in it.by_ref()` over an iterator state.
     # A statement sequence is translated in continuation style: `k(code)` finishes `code` with the translation of
@@ -2579,6 +2789,9 @@ class FnTranslator:
         assigned_self = [a for a in all_assigned if a.startswith("self.") or a in mut_params] + struct_mut
         ret_fields = [v for v in params if v.rust in assigned_self]
         self.ret, self.ret_fields = ret, ret_fields
+        if isinstance(ret, TUnit) and body.tail is not None and body.tail.kind == "if":
+            # (genukk) a unit function whose body ends in `if .. {..} else {..}` without `;`: a statement
+            body = N("block", body.pos, stmts=body.stmts + [N("ifs", body.tail.pos, e=body.tail)], tail=None)
         self.scopes.append({})
         out_tys = self.seq(body.stmts, body.tail, code, body)
         self.scopes.pop()
@@ -2773,6 +2986,21 @@ def zip_parts(it):
             x = x.e if x.kind in ("paren", "un") else x.recv
         return x
     return strip(it.recv), strip(it.args[0])
+
+
+def zip_mut_parts(it):
+    """(genukk) `xs.iter_mut().zip(ys)` → (xs, ys) expressions, else None"""
+    while it.kind == "paren":
+        it = it.e
+    if not (it.kind == "mcall" and it.name == "zip" and len(it.args) == 1):
+        return None
+    r = it.recv
+    if not (r.kind == "mcall" and r.name == "iter_mut" and not r.args):
+        return None
+    y = it.args[0]
+    while y.kind == "paren" or (y.kind == "un" and y.op == "&") or (y.kind == "mcall" and y.name in ("iter", "into_iter") and not y.args):
+        y = y.e if y.kind in ("paren", "un") else y.recv
+    return r.recv, y
 
 
 def method_key(e):
@@ -3231,13 +3459,29 @@ unit(name="SrcMyersMatches", props="properties C09, C10", file="src/pattern_matc
 MYERS_LONG_STRUCTS = {"State": [("pv", "T"), ("mv", "T"), ("dist", "usize")],
                       "Peq": [("peq", "[T; 256]"), ("bound", "T")]}
 
+LONG_STATES = [("states", "Vec<State>"), ("max_block", "usize"), ("last_m", "usize")]
+
 unit(name="SrcMyersLong", props="properties C09, C10", file="src/pattern_matching/myers/long.rs",
-     imports=["RbV.Basic.RsSemWord"], word_types={"T": "w"}, type_paths={"T": "T"}, structs=MYERS_LONG_STRUCTS,
+     imports=["RbV.Basic.RsSemWord", "RbV.Gen.SrcMyersState"], word_types={"T": "w"}, type_paths={"T": "T"}, structs=MYERS_LONG_STRUCTS,
      signed_arith=True,
      functions=[dict(name="advance_block", lean="advanceBlock",
                      header="fn advance_block<T: BitVec>(state: &mut State<T, usize>, p: &Peq<T>, a: u8, hin: i8) -> i8",
                      params=[("state", "&mut State"), ("p", "&Peq"), ("a", "u8"), ("hin", "i8")], ret="i8",
-                     theorem="RbV.Thm.GenSrcMyersLong.advanceBlock_eq_model")])
+                     theorem="RbV.Thm.GenSrcMyersLong.advanceBlock_eq_model"),
+                # `States<T>`: the active blocks `states: Vec<State<T, usize>>` (a list of triples), `max_block`, `last_m`
+                dict(name="States::add_state", lean="addState", header="fn add_state(&mut self, offset: i8)",
+                     self_fields=LONG_STATES, params=[("offset", "i8")], ret=None,
+                     calls={"State::init": dict(lean="RbV.Gen.SrcMyersState.init", extra=["w", "64"], args=["usize"], ret="State")},
+                     theorem="RbV.Thm.GenSrcMyersLongStep.addState_eq_model"),
+                dict(name="States::step", lean="step", header="fn step(&mut self, a: u8, peq: &[Peq<T>], max_dist: usize)",
+                     self_fields=LONG_STATES, params=[("a", "u8"), ("peq", "&[Peq]"), ("max_dist", "usize")], ret=None,
+                     locals={"carry": "i8"},
+                     # `while last_block > 0 && states[last_block].dist >= max_dist + w { last_block -= 1 }`
+                     fuel=["last_block + 1"],
+                     calls={"advance_block": dict(lean="advanceBlock", extra=["w"], args=["&mut State", "&Peq", "u8", "i8"], ret="i8"),
+                            "self.add_state": dict(lean="addState", extra=["w"], self_args=["states", "max_block", "last_m"],
+                                                   self_outs=["states"], args=["i8"], ret=None)},
+                     theorem="RbV.Thm.GenSrcMyersLongStep.step_eq_model")])
 
 
 # ================================================================================================== self-test
